@@ -210,11 +210,13 @@ def drop_dead_statements(tree):
         if isinstance(node, (ast.For, ast.While, ast.AsyncFor)):
             n += _strip_tail_continue(node.body)
         if isinstance(node, (ast.FunctionDef, ast.AsyncFunctionDef)):
-            while len(node.body) > 1 and isinstance(node.body[-1], ast.Return) and (
+            while node.body and isinstance(node.body[-1], ast.Return) and (
                     node.body[-1].value is None or (
                         isinstance(node.body[-1].value, ast.Constant) and
                         node.body[-1].value.value is None)):
-                node.body.pop()
+                last = node.body.pop()
+                if not node.body:
+                    node.body.append(ast.copy_location(ast.Pass(), last))
                 n += 1
         for field in ('body', 'orelse', 'finalbody'):
             blk = getattr(node, field, None)
